@@ -106,6 +106,15 @@ def step16 (d : D16) (op : String) (got : String) : StepResult D16 :=
         { st := d, expected := some want, cov := ["face-table-round"],
           spec := if got != want then
             [⟨"face-table", "add", s!"{k} concurrent face registrations: {got} (every face must get its own identifier and be found under it)"⟩] else [] }
+  else if op.startsWith "life," then
+    -- the life of a real face (registered, optionally destroyed through the tables, late route, transport
+    -- closes): once the link service has torn it down no route of the face is left, so the tables are as before
+    if isCrash got then { st := d, spec := crashSpec got }
+    else
+      let want := "routes-left=0 registered=false"
+      { st := d, expected := some want, cov := ["face-life"],
+        spec := if got != want then
+          [⟨"face-teardown", "life", s!"after the face's transport closed: {got} (the teardown must remove the face and every route through it)"⟩] else [] }
   else if op.startsWith "par " then
     let spec := (op.drop 4).toString
     match parseThreads spec with
